@@ -166,45 +166,35 @@ theorem treesSax_eq_nil {ts : List Tree} (h : treesSax ts = []) : ts = [] := by
     simp only [treesSax, List.append_eq_nil_iff] at h
     exact absurd h.1 (treeSax_ne_nil t)
 
-/-- a field value that emits a child element has a tree -/
-theorem emitsChild_trees {M : NsMap} {rec : Bool → QN → Val → Tree} {var : XmlVar} {x : Val}
-    (hs : Shape var x) (h : emitsChild var x = true) : varTreesN M rec var x ≠ [] := by
-  have hem : (emitOfN var x).isEmpty = false := by
-    rw [emitOfN_nonempty]
-    cases x <;> simp [emitsChild] at h ⊢
-    exact h
-  simp only [varTreesN, hem, Bool.false_eq_true, if_false, chunkTrees]
-  cases hw : var.wrapperQName with
-  | some w => simp
-  | none =>
-    simp only [List.map_eq_nil_iff, ne_eq]
-    cases hs with
-    | none _ _ => simp [emitsChild] at h; simp [itemsN, h]
-    | prim p _ _ => simp [itemsN]
-    | obj c fs _ _ => simp [itemsN]
-    | list xs ht _ _ => simp [emitsChild, hw, ht] at h; simpa [itemsN, ht] using h
-    | toks ys ht _ hys =>
-      cases ys with
-      | nil => simp [emitsChild, hw, ht] at h; simp [itemsN, ht, h]
-      | cons a l =>
-        have := hys a (by simp)
-        cases a <;> simp [Val.isArray] at this <;> simp [itemsN, ht]
-    | seqItem ht hl hy =>
-      cases x with
-      | none => simp [emitsChild] at h; simp [itemsN, h]
-      | list xs => simp [Val.isArray] at hy
-      | prim p => simp [itemsN]
-      | obj c fs => simp [itemsN]
-      | any q t tl a cs => simp [itemsN]
-      | derived q v t => simp [itemsN]
-      | attrs a => simp [itemsN]
-    | tokLists yss ht hl hyss =>
-      cases yss with
-      | nil => simp [emitsChild, hw, ht] at h; simp [itemsN, ht, h]
-      | cons a l =>
-        obtain ⟨ys, rfl⟩ := hyss a (by simp)
-        simp [itemsN, ht]
-
+/-- a field value that emits a child element has an item -/
+theorem emitsChild_items {var : XmlVar} {x : Val} (hs : Shape var x) (h : emitsChild var x = true) :
+    itemsN var x ≠ [] := by
+  cases hs with
+  | none _ _ => simp [emitsChild] at h; simp [itemsN, h]
+  | prim p _ _ => simp [itemsN]
+  | obj c fs _ _ => simp [itemsN]
+  | list xs ht _ _ => simp [emitsChild, ht] at h; simpa [itemsN, ht] using h
+  | toks ys ht _ hys =>
+    cases ys with
+    | nil => simp [emitsChild, ht] at h; simp [itemsN, ht, h]
+    | cons a l =>
+      have := hys a (by simp)
+      cases a <;> simp [Val.isArray] at this <;> simp [itemsN, ht]
+  | seqItem ht hl hy =>
+    cases x with
+    | none => simp [emitsChild] at h; simp [itemsN, h]
+    | list xs => simp [Val.isArray] at hy
+    | prim p => simp [itemsN]
+    | obj c fs => simp [itemsN]
+    | any q t tl a cs => simp [itemsN]
+    | derived q v t => simp [itemsN]
+    | attrs a => simp [itemsN]
+  | tokLists yss ht hl hyss =>
+    cases yss with
+    | nil => simp [emitsChild, ht] at h; simp [itemsN, ht, h]
+    | cons a l =>
+      obtain ⟨ys, rfl⟩ := hyss a (by simp)
+      simp [itemsN, ht]
 
 /-! ### all element vars of an object -/
 
@@ -239,39 +229,6 @@ theorem body_genN (e : BEnv) (Γ : Ctx) (cfg : SerCfg) (M : NsMap) (ns : Option 
     exact BodyW_forall₂ _ chunks body (hall.mono (fun _ _ h => h.1))
   · intro hnil
     exact All2_flatten_nil _ hall hnil
-
-theorem chunks_entries (vars : List XmlVar) (fields : List (Str × Val)) :
-    (vars.flatMap fun var => emitOfN var (look fields var.name)).flatMap chunkEntries =
-      blockEntries (fun var => itemsN var (look fields var.name)) vars := by
-  induction vars with
-  | nil => rfl
-  | cons v t ih =>
-    simp only [List.flatMap_cons, List.flatMap_append, ih, blockEntries]
-    congr 1
-    rw [emitOfN_flatMap]
-    split
-    · rename_i hem
-      -- not emitted: `None` under a var that is not nillable
-      have : ¬ (look fields v.name ≠ .none ∨ v.nillable = true) := by
-        intro h; rw [← emitOfN_nonempty] at h; simp [hem] at h
-      have hx : look fields v.name = .none := by
-        cases hx : look fields v.name <;> simp [hx] at this ⊢
-      have hn : v.nillable = false := by
-        cases hn : v.nillable <;> simp [hn] at this ⊢
-      simp [hx, itemsN, hn]
-    · rfl
-
-theorem chunks_trees (M : NsMap) (rec : Bool → QN → Val → Tree) (vars : List XmlVar)
-    (fields : List (Str × Val)) :
-    (vars.flatMap fun var => emitOfN var (look fields var.name)).flatMap
-        (fun c => chunkTrees M (itemTreeNN M rec c.1) c.1 c.2) =
-      vars.flatMap fun var => varTreesN M rec var (look fields var.name) := by
-  induction vars with
-  | nil => rfl
-  | cons v t ih =>
-    simp only [List.flatMap_cons, List.flatMap_append, ih]
-    congr 1
-    rw [emitOfN_flatMap]; rfl
 
 theorem mem_blockEntries {items : XmlVar → List Val} {vars : List XmlVar} {en : XmlVar × Val}
     (h : en ∈ blockEntries items vars) : en.1 ∈ vars ∧ en.2 ∈ items en.1 := by
